@@ -1,7 +1,7 @@
 (* GenProofs_assorter_skeletons.v — lemmas re-checked on every run against Gen_arith.v regenerated from /repo's
    shangrla/core/Audit.py (group "assorter_skeletons", harness/gen_targets_assorter_skeletons.py): whole-function
    skeletons of CVR.as_vote, CVR.get_vote_for, CVR.has_one_vote, Assertion.make_plurality_assertions,
-   Assertion.make_supermajority_assertion, Contest.tally and Assertion.find_margin_from_tally.
+   Assertion.make_supermajority_assertion, Assertion.make_all_assertions, Contest.tally and Assertion.find_margin_from_tally.
    If any statement of these functions changes, Gen_arith.v is not produced at all (fail-closed translator) and every
    obligation below counts as broken.  The first block proves that the line-by-line reading of the source (the tails)
    IS the hand model of Ballot.v / Assorter.v that property C02 is proved about; the second block ties the translated
@@ -126,3 +126,67 @@ Proof.
 Qed.
 Theorem gen_fmt_sm_no_valid_vote tw n f : ~ n == 0 -> ~ f == 0 -> gen_fmt_sm (gen_fmt_q 0 n) (gen_fmt_p tw 0) f == 0.
 Proof. intros Hn Hf. unfold gen_fmt_sm, gen_fmt_q, gen_fmt_p, mkq. simpl Qeq_bool. cbv iota. field. split; assumption. Qed.
+
+(* ------------------------------------------------------------------ Assertion.make_all_assertions (the dispatch) *)
+(* The losers handed to the builders are exactly the candidates that are not reported winners, each once, whatever
+   order Python's set difference enumerates them in. *)
+Lemma existsb_eqb_In c l : existsb (Z.eqb c) l = true <-> In c l.
+Proof.
+  rewrite existsb_exists. split.
+  - intros [x [Hx E]]. apply Z.eqb_eq in E. subst. exact Hx.
+  - intro H. exists c. split; [exact H | apply Z.eqb_refl].
+Qed.
+Theorem gen_maa_losers_spec cands W l : In l (gen_maa_losers cands W) <-> In l cands /\ ~ In l W.
+Proof.
+  unfold gen_maa_losers. rewrite filter_In, nodup_In, Bool.negb_true_iff.
+  split; intros [H1 H2]; split; try exact H1.
+  - intro H. apply existsb_eqb_In in H. congruence.
+  - destruct (existsb (Z.eqb l) W) eqn:E; [|reflexivity]. apply existsb_eqb_In in E. contradiction.
+Qed.
+Theorem gen_maa_losers_nodup cands W : NoDup (gen_maa_losers cands W).
+Proof. unfold gen_maa_losers. apply NoDup_filter, NoDup_nodup. Qed.
+(* plurality: one assertion for every (reported winner, other candidate) pair and for nothing else — the family of
+   assertions C02's plurality theorem quantifies over *)
+Theorem gen_maa_plurality_pairs cands W f w l :
+  exists pairs, gen_maa_tail PLURALITY cands W f = MAA_plurality pairs /\
+    pairs = plurality_pairs W (gen_maa_losers cands W) /\
+    (In (w, l) pairs <-> In w W /\ In l cands /\ ~ In l W).
+Proof.
+  eexists. split; [reflexivity|]. split; [reflexivity|].
+  unfold gen_mpa_pairs. rewrite in_flat_map. split.
+  - intros [w' [Hw Hin]]. apply in_map_iff in Hin. destruct Hin as [l' [E Hl]]. inversion E; subst.
+    apply gen_maa_losers_spec in Hl. tauto.
+  - intros [Hw [Hl Hn]]. exists w. split; [exact Hw|]. apply in_map_iff. exists l. split; [reflexivity|].
+    apply gen_maa_losers_spec. tauto.
+Qed.
+(* super-majority: the winner is the first reported winner, and the validity test of the assorter ("exactly one vote
+   among cands") ranges over every candidate of the contest exactly when that winner is a candidate *)
+Lemma NoDup_snoc (l : list Z) w : NoDup l -> ~ In w l -> NoDup (l ++ [w]).
+Proof.
+  induction l as [|a l IH]; simpl; intros Hd Hn.
+  - constructor; [intros []|constructor].
+  - inversion Hd as [|a' l' Ha Hl]; subst. constructor.
+    + rewrite in_app_iff. simpl. intros [H|[H|[]]]; [contradiction | subst; apply Hn; left; reflexivity].
+    + apply IH; [exact Hl | intro H; apply Hn; right; exact H].
+Qed.
+Theorem gen_maa_supermajority cands w W f :
+  gen_maa_tail SUPERMAJORITY cands (w :: W) f
+  = MAA_supermajority (Some w) (sm_cands w (gen_maa_losers cands (w :: W))) f.
+Proof. reflexivity. Qed.
+Theorem gen_maa_supermajority_cands cands w f c :
+  In w cands ->
+  exists cs, gen_maa_tail SUPERMAJORITY cands [w] f = MAA_supermajority (Some w) cs f /\ NoDup cs /\ (In c cs <-> In c cands).
+Proof.
+  intro Hw. exists (sm_cands w (gen_maa_losers cands [w])). split; [reflexivity|]. unfold sm_cands. split.
+  - apply NoDup_snoc; [apply gen_maa_losers_nodup | rewrite gen_maa_losers_spec; intros [_ Hn]; apply Hn; left; reflexivity].
+  - rewrite in_app_iff, gen_maa_losers_spec. simpl. split.
+    + intros [[H _]|[E|[]]]; [exact H | subst; exact Hw].
+    + intro H. destruct (Z.eq_dec w c) as [E|E]; [right; left; exact E | left; split; [exact H | intros [E'|[]]; contradiction]].
+Qed.
+Theorem gen_maa_supermajority_no_winner cands f :
+  gen_maa_tail SUPERMAJORITY cands [] f = MAA_supermajority None [] f.      (* winrs[0]: IndexError *)
+Proof. reflexivity. Qed.
+(* the remaining branches: IRV assertions come from the RAIRE JSON (C04/C14), approval is refused *)
+Theorem gen_maa_other_branches cands W f :
+  gen_maa_tail IRV cands W f = MAA_from_json /\ gen_maa_tail APPROVAL cands W f = MAA_not_implemented.
+Proof. split; reflexivity. Qed.
